@@ -106,7 +106,12 @@ def parseView (j : Json) : Except String View := do
     match (← arr p) with
     | [v, u] => return ((← parseVal v), (← chars u))
     | _ => throw "bad sibling")
+  let sibState ← (← arr (fldD j "sibling_state" (Json.arr #[]))).mapM (fun p => do
+    match (← arr p) with
+    | [f, n] => return ((← optOf bool f), (← nat n))
+    | _ => throw "bad sibling state")
   return {
+    siblingState := sibState,
     value := ← valD j "value", u := ← chars (fldD j "u" (Json.str "")),
     label := ← valD j "label", name := ← valD j "name",
     isSequence := ← boolD j "is_seq" false,
